@@ -1,9 +1,12 @@
 import PartituraModel.Wire
 import PartituraModel.Model.IterProto
 import PartituraModel.Model.RefHeap
+import PartituraModel.Model.ArgForms
+import PartituraModel.Model.StavesCache
 
 open Wire Model.IterProto
 open Model.RefHeap (Attr Heap variant)
+open Model.ArgForms
 
 def parseOp : P Op := do
   let t ← tok
@@ -32,6 +35,42 @@ def fmtOut : Out Nat → String
   | .indexError => "IndexError"
   | .badHandle => "bad"
 
+def parseOp3 : P (Op3 Nat) := do
+  let t ← tok
+  match t with
+  | "iter" => pure Op3.iter
+  | "riter" => pure Op3.riter
+  | "next" => do let h ← nat; pure (Op3.next h)
+  | "len" => pure Op3.len
+  | "get" => do let i ← int; pure (Op3.getitem i)
+  | "set" => do let i ← int; let a ← nat; pure (Op3.set i a)
+  | "in" => do let a ← nat; pure (Op3.contains a)
+  | "slice" => do let a ← opt int; let b ← opt int; let c ← opt int; pure (Op3.slice a b c)
+  | "noattr" => pure Op3.noattr
+  | _ => P.fail
+
+def fmtOut3 : Out3 Nat → String
+  | .handle h => "h" ++ toString h
+  | .item a => "p" ++ toString a
+  | .stop => "stop"
+  | .length n => "len" ++ toString n
+  | .indexError => "IndexError"
+  | .badHandle => "bad"
+  | .bool b => if b then "T" else "F"
+  | .items l => fmtList (fun (a : Nat) => "p" ++ toString a) l
+  | .valueError => "ValueError"
+  | .attributeError => "AttributeError"
+
+def parseStavesOp : P Model.StavesCache.Op := do
+  let t ← tok
+  match t with
+  | "add" => do let s ← opt nat; pure (Model.StavesCache.Op.add s)
+  | "remove" => do let i ← nat; pure (Model.StavesCache.Op.remove i)
+  | "read" => pure Model.StavesCache.Op.read
+  | "compute" => pure Model.StavesCache.Op.compute
+  | "set" => do let i ← nat; let s ← opt nat; pure (Model.StavesCache.Op.setStaff i s)
+  | _ => P.fail
+
 def parseAttr : P Attr := do
   let t ← tok
   match t with
@@ -48,6 +87,67 @@ def fmtAttr (oldCells : Nat) (h : Heap) : Attr → String
   | Attr.list a => (if a < oldCells then "lS" else "lF") ++
       fmtList (fmtOpt (fun (n : Nat) => toString n)) (h.cells.getD a [])
 
+-- ------------------------------------------------------------------ argument forms (Model/ArgForms.lean)
+
+/-- `p <id>` | `g <k> <children…>`; the fuel only bounds the nesting depth of a request -/
+def parseNode : Nat → P Node
+  | 0 => P.fail
+  | fuel + 1 => do
+    let t ← tok
+    match t with
+    | "p" => do let i ← nat; pure (Node.part i)
+    | "g" => do let cs ← list (parseNode fuel); pure (Node.group cs)
+    | _ => P.fail
+
+def parseScoreArg : P ScoreArg := do
+  let t ← tok
+  match t with
+  | "score" => do let ps ← list nat; let st ← list (parseNode 16); pure (ScoreArg.score ps st)
+  | "node" => do let n ← parseNode 16; pure (ScoreArg.node n)
+  | "list" => do let xs ← list (parseNode 16); pure (ScoreArg.seq true xs)
+  | "tuple" => do let xs ← list (parseNode 16); pure (ScoreArg.seq false xs)
+  | _ => P.fail
+
+partial def fmtNode : Node → String
+  | .part p => "p" ++ toString p
+  | .group cs => "g" ++ fmtList fmtNode cs
+
+def fmtNats (l : List Nat) : String := fmtList (fun (n : Nat) => toString n) l
+
+def insertNat (x : Nat) : List Nat → List Nat
+  | [] => [x]
+  | y :: ys => if x ≤ y then x :: y :: ys else y :: insertNat x ys
+
+def sortNats (l : List Nat) : List Nat := l.foldr insertNat []
+
+def parseTArg : P TArg := do
+  let t ← tok
+  match t with
+  | "score" => do let ps ← list (list nat); pure (TArg.score ps)
+  | "part" => do let p ← list nat; pure (TArg.part p)
+  | "group" => do let ps ← list (list nat); pure (TArg.group ps)
+  | "seq" => do let ps ← list (list nat); pure (TArg.seq ps)
+  | _ => P.fail
+
+def parsePPart : P PPart := do
+  let n ← list (opt int); let c ← list (opt int); let p ← list (opt int); let m ← list (opt int)
+  pure { notes := n, controls := c, programs := p, metas := m }
+
+def parsePerfArg : P PerfArg := do
+  let t ← tok
+  match t with
+  | "performance" => do let pps ← list parsePPart; pure (PerfArg.performance pps)
+  | "ppart" => do let pp ← parsePPart; pure (PerfArg.ppart pp)
+  | "seq" => do let pps ← list parsePPart; pure (PerfArg.seq pps)
+  | "bad" => pure PerfArg.bad
+  | "other" => pure PerfArg.other
+  | _ => P.fail
+
+def fmtTracks (l : List (Option Int)) : String := fmtList (fmtOpt fmtInt) l
+
+def fmtPPart (pp : PPart) : String :=
+  fmtTuple [fmtTracks pp.notes, fmtTracks pp.controls, fmtTracks pp.programs, fmtTracks pp.metas]
+
 /-- `run n ops…`: a container with parts 0..n-1 (parts are identified by their index) -/
 def handle (ts : List String) : String :=
   match ts with
@@ -58,6 +158,17 @@ def handle (ts : List String) : String :=
   | "run2" :: rest =>
     match Wire.run (do let n ← nat; let ops ← list parseOp2; pure (n, ops)) rest with
     | some (n, ops) => fmtList fmtOut (run2 (List.range n, {}) ops).2
+    | none => "bad-request"
+  | "run3" :: rest =>
+    match Wire.run (do let n ← nat; let ops ← list parseOp3; pure (n, ops)) rest with
+    | some (n, ops) => fmtList fmtOut3 (run3 (List.range n, {}) ops).2
+    | none => "bad-request"
+  | "staves" :: rest =>
+    -- a history of add / remove / read / compute on one part: what every call returns, and the staff attributes left
+    match Wire.run (list parseStavesOp) rest with
+    | some ops =>
+      let r := Model.StavesCache.run Model.StavesCache.init ops
+      fmtList (fmtOpt (fun (n : Nat) => toString n)) r.2 ++ "|" ++ fmtList (fmtOpt (fun (n : Nat) => toString n)) r.1.staves
     | none => "bad-request"
   | "srun" :: rest =>
     match Wire.run (do let n ← nat; let ops ← list parseOp; pure (n, ops)) rest with
@@ -71,6 +182,32 @@ def handle (ts : List String) : String :=
       let h : Heap := { objs := objs, cells := cells }
       let v := variant h os
       fmtList (fun as => fmtList (fmtAttr cells.length v) as) v.objs
+    | none => "bad-request"
+  | "scoreforms" :: rest =>
+    -- every normalisation of a score-like argument: iter_parts | Score(x) | save_musicxml | save_score_midi | ensure_notearray
+    match Wire.run parseScoreArg rest with
+    | some a =>
+      "iter=" ++ fmtOpt fmtNats (iterParts a) ++
+      ";ctor=" ++ fmtOpt (fun (r : List Nat × List Node) => fmtNats r.1 ++ fmtList fmtNode r.2) (scoreCtor a) ++
+      ";xml=" ++ fmtOpt (fun (r : List Nat × List Node) => fmtNats r.1) (xmlScore a) ++
+      ";midi=" ++ fmtNats (sortNats (midiParts a)) ++
+      ";na=" ++ fmtOpt (fun (ns : List Node) => fmtNats (iterNodes ns)) (notearrayParts a)
+    | none => "bad-request"
+  | "transpose" :: rest =>
+    -- transpose <semitones> <cells> <argument>: the argument's cells afterwards | the contents of the result
+    match Wire.run (do let k ← int; let cells ← list int; let a ← parseTArg; pure (k, cells, a)) rest with
+    | some (k, cells, a) =>
+      let r := transpose (fun (x : Int) => x + k) cells a
+      fmtList fmtInt (r.1.take cells.length) ++ "|" ++
+        fmtList (fun p => fmtList (fmtOpt fmtInt) p) (contents r.1 r.2)
+    | none => "bad-request"
+  | "perf" :: rest =>
+    -- perf <ensure_unique_tracks> <argument>: export: parts read, MIDI tracks, file type | constructor: parts, num_tracks
+    match Wire.run (do let e ← bool; let a ← parsePerfArg; pure (e, a)) rest with
+    | some (e, a) =>
+      "export=" ++ fmtOpt (fun pps => fmtList fmtPPart pps ++ ":" ++ toString (exportTracks pps).length ++ ":" ++
+                              (if (exportTracks pps).length = 1 then "0" else "1")) (perfParts a) ++
+      ";ctor=" ++ fmtOpt (fun pps => fmtList fmtPPart pps ++ ":" ++ toString (numTracks pps)) (perfCtor e a)
     | none => "bad-request"
   | _ => "bad-request"
 
